@@ -40,12 +40,12 @@ func (C01) Trivial(c fw.Case, out []string) bool {
 	return true
 }
 func (C01) Describe(cfg *fw.Config) {
-	cfg.Rule = "seeded histories on one shard (inmem and tsi1 index): acknowledged batches of writes (3 measurements x 3 tag sets x 2 fields over 40 instants, overwrites), cut by crashes = copy of the directory tree + restart on the copy: at arbitrary moments with the newest WAL segment's tail clean, or extended by a proper prefix of a never-acknowledged entry, by garbage or by zeros; and at the named durable steps snapshot.written, snapshot.installed, replace.renamed, replace.removed (during snapshots and compactions of contiguous file groups), delete.tombstoned, tombstone.committed, delete.cache, delete.wal (during range deletes, which are completed after the restart); up to 6 crashes per history with further acknowledged writes, snapshots and compactions in between; after every crash every series is read over the full range through both read paths and compared with the last-write-wins specification; non-trivial = at least one crash; distinct = distinct op list"
+	cfg.Rule = "seeded histories on one shard (inmem and tsi1 index): acknowledged batches of writes (3 measurements x 3 tag sets x 2 fields over 40 instants, overwrites), cut by crashes = copy of the directory tree + restart on the copy: at arbitrary moments with the newest WAL segment's tail clean, or extended by a proper prefix of a never-acknowledged entry, by garbage or by zeros; and at the named durable steps snapshot.written, snapshot.installed, replace.renamed, replace.removed, replace.inuse (during snapshots and compactions of contiguous file groups; the last one with every file held by a reader, between the decision to move an input aside and the move), delete.tombstoned, tombstone.committed, delete.cache, delete.wal (during range deletes, which are completed after the restart); up to 6 crashes per history with further acknowledged writes, snapshots and compactions in between; after every crash every series is read over the full range through both read paths and compared with the last-write-wins specification; non-trivial = at least one crash; distinct = distinct op list"
 }
 
 var c01Points = map[string][]string{
 	"snap":    {"snapshot.written", "snapshot.installed", "replace.renamed"},
-	"compact": {"replace.renamed", "replace.removed"},
+	"compact": {"replace.renamed", "replace.removed", "replace.inuse", "replace.inuse"},
 	"del":     {"delete.tombstoned", "tombstone.committed", "delete.cache", "delete.wal"},
 }
 
